@@ -141,12 +141,46 @@ func c10ExecRun(t *rapid.T) {
 		rt.Variant = uni(t, "variant", 3)
 		rt.Ctx = probe
 		hist = append(hist, fmt.Sprintf("render %d: program %d, data variant %d", r, i, rt.Variant))
-		_, err := rt.render()
+		var err error
+		if uni(t, "childrender", 3) == 0 {
+			// the caller renders with a CHILD of its base context; afterwards it rebinds, on the base, names the
+			// template only reads: the child has no binding of its own for them, so it observes the new values
+			base := plush.NewContextWith(rt.contextData())
+			child, _ := base.New().(*plush.Context)
+			_, err = safeRender(progs[i].Main, child)
+			count("c10exec_child_renders", 1)
+			for _, x := range []string{"objs", "om", "obj", "nobjs", "nm", "car", "page", "many", "mi", "anc0"} {
+				sentinel := "set on the base after the render: " + x
+				base.Set(x, sentinel)
+				if got := child.Value(x); got != sentinel {
+					hist = append(hist, fmt.Sprintf("render %d: program %d, data variant %d, with base.New()", r, i, rt.Variant))
+					violate(t, "C10", "value-is-the-nearest-binding", "c10exec:render-left-a-shadow-binding", det(fmt.Sprintf("after rendering program %d with child := base.New(), base.Set(%q, sentinel) is not what child.Value(%q) returns (%s): the render left a binding of %q in the caller's child context although the template never binds that name", i, x, x, describeReal(got), x)))
+					return
+				}
+			}
+		} else {
+			_, err = rt.render()
+		}
 		count("c10exec_renders", 1)
 		if err != nil {
 			count("c10exec_renders_failed", 1)
 		}
 		probe.endRender()
+		// scope snippets: sibling scopes, private scopes and earlier activations are not observable
+		if exp := progs[i].ScopeExpect; len(exp) > 0 {
+			obs := rt.ScopeObs
+			count("c10exec_scope_snippet_renders", 1)
+			bad := len(obs) > len(exp) || (err == nil && len(obs) != len(exp))
+			for x := 0; x < len(obs) && x < len(exp); x++ {
+				if obs[x] != exp[x] {
+					bad = true
+				}
+			}
+			if bad {
+				violate(t, "C10", "a-set-is-not-observable-from-sibling-scopes", "c10exec:scope-snippet", det(fmt.Sprintf("render %d of program %d: the sibobs() calls observed %v, expected %v (render error: %v)", r, i, obs, exp, err)))
+				return
+			}
+		}
 		if probe.bad != "" {
 			violate(t, "C10", "a-context-nobody-writes-to-observes-the-same-for-ever", "c10exec:"+probe.badSig, det(probe.bad))
 			return
